@@ -31,7 +31,14 @@ from twisted.internet.defer import (
 from twisted.python.failure import Failure
 
 HEADLINE = "TwistedProps.C05.inline_matches_sync"
-RULE = ("[after the white-box mutation audit: + returnValue() in generators; + a value that travels as None (fired, yielded, "
+RULE = ("[after seeded change C05-3 (a shortcut in _inlineCallbacks taking .result of a fired Deferred that is still running its "
+        "last callback) was missed: + ORACLE-ONLY cases (no model line), about 1/7 of the cases: an awaited Deferred j whose "
+        "last callback fires Deferred j-1 (the function waits on it, is resumed INSIDE that callback and awaits j) and then passes "
+        "on / replaces by a value / raises (UserError | UserBase) / returns another, already fired Deferred; + statement `w` = await the Deferred awaited last AGAIN (retry "
+        "loops; after it fired, failed or was cancelled while waited on, or before) — the twin sees None the second time; both "
+        "with cancels, nesting through generators, all awaited-object kinds; tag adds relay actions and whether a Deferred was "
+        "awaited while running a callback]  "
+        "[after the white-box mutation audit: + returnValue() in generators; + a value that travels as None (fired, yielded, "
         "returned); + awaited objects of a sub-subclass of Deferred; + 1-3 callbacks on the returned Deferred; + long runs "
         "(150-400 Deferreds that have fired already, consumed without giving control back); + nested functions that survive "
         "2-4 cancellations; + triple cancels]  "
@@ -46,8 +53,12 @@ RULE = ("[after the white-box mutation audit: + returnValue() in generators; + a
         "(kind, statement kinds used, call styles, #pre-fired, #cancels that hit a waiting function, failure classes x "
         "exception kinds delivered, awaited-object kinds, ended?)")
 ASSUMES = [
-    "each awaited Deferred is awaited once (the k-th executed await gets Deferred k) and carries no other callbacks than a "
-    "pass-through recorder (and, for the 'chained' kind, the one callback that returned the Deferred it is paused on)",
+    "MODEL-COMPARED cases: each awaited Deferred is awaited once (the k-th executed await gets Deferred k) and carries no other "
+    "callbacks than a pass-through recorder (and, for the 'chained' kind, the one callback that returned the Deferred it is paused "
+    "on).  ORACLE-ONLY cases (case['relay'], statement `w`; generators judged in full, coroutines up to the recorded finding "
+    "coroutine-await-inside-own-callback) lift both: one further callback that fires another awaited Deferred and decides the "
+    "outcome, and a second await of the same Deferred (expected None: the first await consumed the outcome).  The Lean model and "
+    "theorems do NOT cover these: no callbacks on awaited Deferreds, no _runningCallbacks, no second await in Inline/Driver.lean",
     "plain yielded values and callback() values are ints (a Failure instance yielded as a PLAIN value is raised back into an "
     "inlineCallbacks generator — `yield` is documented as 'roughly maybeDeferred' — and is outside the statement's 'plain values')",
     "cancel() of the returned Deferred comes from outside the function (not re-entrantly from its own body or from a canceller)",
@@ -59,8 +70,10 @@ ASSUMES = [
     "yield and return; the compiled function maps it back when it receives it, so the model sees the int)",
     "the callbacks an application adds to the RETURNED Deferred after the observer (flag `nobs`) replace the result; only their "
     "being run once, after the observer, is checked",
-    "hypothesis boundary probed by hand on the real code, outside the statement: re-awaiting one Deferred gives (5, None) in "
-    "a generator and (5, 5) in a coroutine (a Deferred's result is consumed by callbacks); re-entrant cancel() is harmless",
+    "re-awaiting one Deferred: (5, None) in a generator — now generated and judged (statement `w`); a COROUTINE that awaits a "
+    "Deferred which already has a result does not consume it ((5, 5)) and, when the Deferred is running a callback, reads that "
+    "callback's input (or trips `assert self._debugInfo is not None`): `w` is therefore generated for generators only, the two "
+    "coroutine corpus cases reproduce the recorded finding; re-entrant cancel() is harmless (probed by hand)",
 ]
 TRUSTED = [
     "Inline/Machine.lean (`denote`): my transcription of Python generator/coroutine semantics (try/except/finally on throw, "
@@ -87,7 +100,11 @@ MANIFEST = {
             "fired_result_observed_by_isinstance) and for BaseException-derived exceptions. The theorems have no size bound; the tie "
             "now also runs long programs (hundreds of already-fired Deferreds in one go), None values, returnValue(), sub-subclasses of "
             "Deferred, several callbacks on the returned Deferred and nested functions cancelled up to 4 times (white-box mutation "
-            "audit, harness/mutants/C05/README.md). PARTIAL: Python generator semantics and the replacement-Deferred chain are transcriptions/abstractions "
+            "audit, harness/mutants/C05/README.md). NOT PROVED, tie by oracle only (after seeded change C05-3): awaited Deferreds "
+            "that carry a callback which resumes the function and then replaces the result (the function awaits a Deferred that is "
+            "running a callback), and awaiting one Deferred again — the model has neither callbacks on awaited Deferreds nor "
+            "_runningCallbacks; the synchronous-twin oracle judges these on the real code (generators in full; coroutines: recorded "
+            "finding coroutine-await-inside-own-callback). PARTIAL: Python generator semantics and the replacement-Deferred chain are transcriptions/abstractions "
             "tied by differential runs of compiled programs (generator and coroutine) against the real defer.py.",
     "note": "trusts Lean kernel, my CPS transcription of Python generator semantics, the activation-stack abstraction of nested "
             "inlineCallbacks Deferreds, the program compiler in harness/corr/C05.py",
@@ -111,6 +128,13 @@ MANIFEST = {
 # case["nil"] : int n — the value n is REPRESENTED BY `None` wherever it crosses the Twisted code (callback(None), `yield None`,
 #               `return None`); the function maps it back on receipt, so the model line is unchanged
 # case["dbg"] : run under defer.setDebugging(True)
+# ["w"]       : await AGAIN the Deferred that was awaited last (the first one if none was); logged `w:<outcome>`, `w:none` when the
+#               outcome had been handed over before (what a synchronous second look finds); ORACLE-ONLY (model_line → None)
+# case["relay"]: [[j, i, outcome, action], ...] — awaited Deferred j gets, as its LAST callback (addBoth), one that fires Deferred i
+#               with `outcome` and then: ["p"] passes its input on · ["v",n] returns n · ["u",n]/["b",n] raises UserError/UserBase ·
+#               ["d",outcome] returns another Deferred that has fired with `outcome`; what it returns IS Deferred j's outcome
+#               (recorded by that callback; timeline tokens Y<j> … y<j>; W<k> = Deferred k was handed to an await while it
+#               was running a callback).  ORACLE-ONLY
 # case["nobs"]: number of callbacks on the returned Deferred (default 1): the first one is the property's observer, the later
 #               ones are an application's further callbacks, which replace the result by an object of their own
 
@@ -276,6 +300,17 @@ class _Compiler:
         elif t == "a":
             expr = {"gen": "yield nextD()", "coro": "await nextD()", "sync": "take()"}[kind]
             self.observed(ind, "acc", expr, "a")
+        elif t == "w":
+            # await AGAIN the Deferred awaited last (retry loops): its outcome was consumed by the first await, so a
+            # synchronous second look gives None (logged as `w:none`); acc is left alone
+            expr = {"gen": "(yield lastD())", "coro": "await lastD()", "sync": "take_again()"}[kind]
+            self.emit(ind, "try:")
+            self.emit(ind + 1, "_r = %s" % expr)
+            self.emit(ind, "except BaseException as _e:")
+            self.emit(ind + 1, "logexc('w', _e)")
+            self.emit(ind + 1, "raise")
+            self.emit(ind, "else:")
+            self.emit(ind + 1, "logagain(_r)")
         elif t == "y":
             e = _py_expr(s[1])
             expr = {"gen": "unnil((yield nilv(%s)))" % e, "coro": "unnil(await Plain(nilv(%s)))" % e, "sync": e}[kind]
@@ -437,7 +472,19 @@ def enc_events(evs):
     return ",".join("x" if e[0] == "x" else "f%d:%s" % (e[1], enc_outcome(e[2])) for e in evs)
 
 
+def _has_w(p):
+    return p[0] == "w" or any(_has_w(p[i]) for i in _KIDS.get(p[0], []))
+
+
+def is_reentrant_case(c):
+    """cases of the class added after seeded change C05-3: a callback on an awaited Deferred that fires another awaited
+    Deferred and then replaces the result, and/or a program that awaits one Deferred again"""
+    return bool(c.get("relay")) or _has_w(c["prog"])
+
+
 def model_line(c):
+    if is_reentrant_case(c):
+        return None          # oracle-only: the Lean model has no callbacks on awaited Deferreds and no second await
     specs = ",".join(enc_spec(s) for s in c["specs"]) or "-"
     return "run %s %s %s %s %s" % ("c" if c.get("kind", "gen") == "coro" else "g", enc_prog(c["prog"]), specs,
                                     enc_events(c["pre"]), enc_events(c["post"]))
@@ -463,6 +510,8 @@ class _Run:
         self.frozen = None       # the observable line, fixed when the schedule is over
         self.nil = case.get("nil")          # the int that travels as None (or None: no such value)
         self.later_calls = [0] * (max(1, case.get("nobs", 1)) - 1)   # calls of the later callbacks on the returned Deferred
+        self.relays = {r[0]: r for r in (case.get("relay") or [])}   # awaited Deferred j -> [j, i, outcome for i, action]
+        self.reentrant = 0       # awaits of a Deferred that was running one of its callbacks at that moment
         self.done = False        # set when the schedule is over: what abandoned generators do while being
                                  # finalised (GeneratorExit runs their `finally` clauses) is not an observation
 
@@ -495,6 +544,9 @@ class _Run:
         if isinstance(e, (GeneratorExit, _Blocked)):
             return
         self._log((tag, tok_exc(e)))
+
+    def _logagain(self, v):
+        self._log(("w", "none" if v is None else tok_value(v)))
 
     @staticmethod
     def _code(e):
@@ -545,7 +597,47 @@ class _Run:
                 self.outcomes[i] = self._tok_result(r)
             return r
 
-        d.addBoth(rec)
+        relay = self.relays.get(i)
+        if relay is None:
+            d.addBoth(rec)
+            return d
+
+        def relaying(r):
+            # the LAST callback of this Deferred: while it runs it fires ANOTHER awaited Deferred (a function waiting on
+            # that one is resumed right here, inside this callback, and may go on to await THIS Deferred), and then it
+            # decides this Deferred's outcome: what it returns / raises is what an awaiting function must observe
+            if self.done:
+                return r
+            self.tl.append("Y%d" % i)
+            self._fire(relay[1], relay[2])
+            act = relay[3]
+            if act[0] == "d":
+                # the callback returns ANOTHER Deferred, which has fired already: this Deferred's outcome is that one's
+                inner = Deferred()
+                o = act[1]
+                if self.outcomes[i] is None:
+                    self.outcomes[i] = "%s%d" % (o[0], o[1])
+                if o[0] == "v":
+                    inner.callback(self._nilv(o[1]))
+                else:
+                    _deliver(inner, o[0], o[1], _cls(o))
+                self.tl.append("y%d" % i)
+                return inner
+            try:
+                if act[0] == "v":
+                    r = self._nilv(act[1])
+                elif act[0] in "ub":
+                    raise _exception(act[0], act[1])
+            except BaseException:
+                r = Failure()
+                rec(r)
+                self.tl.append("y%d" % i)
+                raise
+            rec(r)
+            self.tl.append("y%d" % i)
+            return r
+
+        d.addBoth(relaying)
         return d
 
     def _next_d(self):
@@ -553,7 +645,20 @@ class _Run:
         self.allocated += 1
         while len(self.ds) <= i:
             self._make_d()
-        return self.ds[i]
+        return self._handing_out(i)
+
+    def _handing_out(self, i):
+        d = self.ds[i]
+        if getattr(d, "_runningCallbacks", False):
+            self.reentrant += 1
+            self.tl.append("W%d" % i)
+        return d
+
+    def _last_d(self):
+        """the Deferred awaited last, once more (the first one if none has been awaited yet)"""
+        if self.allocated == 0:
+            return self._next_d()
+        return self._handing_out(self.allocated - 1)
 
     def _fire(self, i, o):
         while len(self.ds) <= i:
@@ -587,6 +692,7 @@ class _Run:
             "UserError": UserError, "UserBase": UserBase, "CancelledError": CancelledError, "Plain": _Plain,
             "nextD": self._next_d, "log": self._log, "logval": self._logval, "logexc": self._logexc, "code": self._code,
             "nilv": self._nilv, "unnil": self._unnil, "returnValue": returnValue,
+            "lastD": self._last_d, "logagain": self._logagain,
         }
         exec(code, env)
         for e in case["pre"]:
@@ -674,6 +780,15 @@ class _Run:
                 raise CancelledError()
             raise AssertionError("outcome token " + o)
 
+        def take_again():
+            # the outcome of the Deferred awaited last has been handed over already: a second look finds nothing (None)
+            if st["k"] == 0:
+                return take()
+            return None
+
+        def logagain(v):
+            logtok(("w", "none" if v is None else tok_value(v)))
+
         def logtok(entry):
             log.append("%s:%s" % entry if not isinstance(entry[1], int) else "%s:%d" % entry)
 
@@ -687,7 +802,8 @@ class _Run:
         env = {"inlineCallbacks": lambda f: f, "UserError": UserError, "UserBase": UserBase, "CancelledError": CancelledError,
                "take": take, "blocked": lambda: st["blocked"], "log": logtok, "logval": logval, "logexc": logexc,
                "code": self._code, "Plain": _Plain, "ensureDeferred": None, "Deferred": None, "nextD": None,
-               "nilv": lambda v: v, "unnil": lambda v: v, "returnValue": None}
+               "nilv": lambda v: v, "unnil": lambda v: v, "returnValue": None, "take_again": take_again,
+               "logagain": logagain, "lastD": None}
         exec(code, env)
         try:
             r = env["f0_sync"]()
@@ -784,7 +900,21 @@ def run_impl(case):
     return _execute(case).line()
 
 
+KNOWN_CORO_KEY = "coroutine-await-inside-own-callback"
+
+
 def oracle(case, out):
+    bad = _judge(case, out)
+    if (bad is not None and case.get("kind") == "coro" and is_reentrant_case(case) and not out.startswith("!raised")
+            and _execute(case).reentrant > 0):
+        # Deferred.__await__ hands a coroutine `self.result` whenever there is one — also while the Deferred is in the
+        # middle of running a callback, when `result` is still that callback's INPUT (recorded finding; generators go
+        # through addBoth() and are judged in full)
+        return {"key": KNOWN_CORO_KEY, "detail": "[%s] %s" % (bad["key"], bad["detail"])}
+    return bad
+
+
+def _judge(case, out):
     if out.startswith("!raised"):
         return {"key": "escaped-exception", "detail": out}
     run = _execute(case)
@@ -813,7 +943,8 @@ def oracle(case, out):
                 return {"key": "cancel-not-exactly-awaited", "detail": "cancel() while waiting on Deferred %d changed cancel counts by %s" % (w, delta)}
             if rep["outcome"] is None:
                 return {"key": "cancelled-deferred-has-no-outcome", "detail": "Deferred %d has no outcome after cancel()" % w}
-            if rep["log_after"] != ["a:" + rep["outcome"]]:
+            # (`w:` is the tag of the same observation made by statement `w`, which awaits a first Deferred like `a` does)
+            if rep["log_after"] != ["a:" + rep["outcome"]] and rep["log_after"] != ["w:" + rep["outcome"]]:
                 return {"key": "function-did-not-observe-outcome", "detail": "after cancel() Deferred %d had outcome %s but the function logged %s"
                         % (w, rep["outcome"], rep["log_after"])}
         else:
@@ -1066,6 +1197,28 @@ def corpus():
                                                       ["r", ["P", 1]]), 2], ["r", ["P", 1]]),
              "specs": [["n"], ["z"], ["n"]], "pre": [], "post": [["x"], ["x"], ["x"]]},
         ]
+    # ---- re-entrancy (added after seeded change C05-3 was missed): oracle-only cases
+    for act in (["v", 4], ["u", 6], ["b", 6], ["p"], ["d", ["v", 8]], ["d", ["u", 8, "s"]]):
+        for o1 in (["v", 2], ["u", 3, "p"]):
+            # Deferred 1's last callback fires Deferred 0 (the function waits on it) and then decides 1's outcome: the
+            # function, resumed inside that callback, awaits Deferred 1 and must observe what the callback returns/raises
+            out.append({"kind": "gen", "prog": seq(A, ["x", "a", A, ["m", 1]], ["r", ["A"]]), "specs": [], "pre": [],
+                        "post": [["f", 1, o1]], "relay": [[1, 0, ["v", 7], act]]})
+    out += [
+        # the same through a nested decorated generator, with a pre-fired Deferred consumed on the way
+        {"kind": "gen", "prog": seq(["c", True, seq(A, A, ["x", "b", A, ["m", 2]], ["r", ["A"]]), 0], ["r", ["P", 1]]), "specs": [],
+         "pre": [["f", 0, ["v", 1]]], "post": [["f", 2, ["v", 5]]], "relay": [[2, 1, ["u", 8, "s"], ["b", 3]]], "dk": ["", "", "S"]},
+        # retry loops: the Deferred fails / fires / is cancelled WHILE waited on and is awaited again → None the second time
+        {"kind": "gen", "prog": ["l", 3, ["x", "u", seq(["w"], ["r", ["A"]]), ["m", 4]]], "specs": [], "pre": [], "post": [["f", 0, ["u", 1, "p"]]]},
+        {"kind": "gen", "prog": ["l", 3, ["x", "c", seq(["w"], ["r", ["A"]]), ["m", 4]]], "specs": [], "pre": [], "post": [["x"]]},
+        {"kind": "gen", "prog": seq(A, ["w"], ["w"], ["r", ["A"]]), "specs": [], "pre": [], "post": [["f", 0, ["v", 5]]]},
+        {"kind": "gen", "prog": seq(["x", "a", A, ["w"]], ["r", ["A"]]), "specs": [["e", 2, "s", "u"]], "pre": [], "post": [["x"]]},
+        # ... and when it had fired before the first await
+        {"kind": "gen", "prog": seq(["x", "a", A, ["w"]], ["w"], ["r", ["A"]]), "specs": [], "pre": [["f", 0, ["u", 5, "r"]]], "post": []},
+        # coroutines: Deferred.__await__ takes `result` also while the Deferred runs a callback (recorded finding)
+        {"kind": "coro", "prog": seq(A, A, ["r", ["A"]]), "specs": [], "pre": [], "post": [["f", 1, ["v", 2]]], "relay": [[1, 0, ["v", 7], ["v", 4]]]},
+        {"kind": "coro", "prog": ["l", 3, ["x", "u", seq(["w"], ["r", ["A"]]), ["m", 4]]], "specs": [], "pre": [], "post": [["f", 0, ["u", 1, "p"]]]},
+    ]
     return out
 
 
@@ -1141,9 +1294,115 @@ def _nested_cancel(rng):
     return {"kind": "gen", "prog": _sanitize(prog), "specs": specs, "pre": [], "post": post}, waits + 1
 
 
+_GEN_STYLES = [(True, 0), (True, 1), (False, 0)]      # call styles that keep a generator program all-generator
+
+
+def _act(rng):
+    """what the relaying callback does to the result it was given: pass it on | replace it by a value | raise"""
+    r = rng.random()
+    if r < 0.15:
+        return ["p"]
+    if r < 0.55:
+        return ["v", rng.randint(0, 9)]
+    if r < 0.65:
+        return ["d", _outcome(rng, 0.4)]
+    return ["u" if rng.random() < 0.8 else "b", rng.randint(0, 9)]
+
+
+def _guard(rng, s):
+    r = rng.random()
+    if r < 0.45:
+        return s
+    if r < 0.85:
+        return ["x", rng.choice("aaub"), s, rng.choice([["m", rng.randint(0, 9)], ["k"], ["s", ["P", 1]]])]
+    return ["f", s, ["m", rng.randint(0, 9)]]
+
+
+def _reentrant(rng):
+    """the class of seeded change C05-3 → list of (base case, both kinds?).  (a) awaited Deferred j carries a LAST
+    callback that fires Deferred j-1 — on which the function is waiting — and then replaces j's result: the function is
+    resumed inside that callback and awaits j while j is still running it.  (b) the function awaits one Deferred AGAIN
+    (statement `w`) after it fired / failed / was cancelled while waited on (or before).  Generators only call generators
+    here (a coroutine awaiting a Deferred that is running a callback is the recorded finding KNOWN_CORO_KEY)."""
+    seq = lambda xs: xs[0] if len(xs) == 1 else ["q", xs[0], seq(xs[1:])]
+    r = rng.random()
+    if r < 0.55:
+        # (a) relay
+        n = rng.choice([2, 2, 3, 4])
+        j = rng.randint(1, n - 1)
+        stmts = [_guard(rng, ["a"]) for _ in range(n)]
+        with_w = rng.random() < 0.25
+        if with_w:
+            stmts.insert(j + 1, _guard(rng, ["w"]))
+        if rng.random() < 0.3:
+            stmts.insert(rng.randint(0, len(stmts)), rng.choice([["y", ["P", 1]], ["m", 7]]))
+        prog = seq(stmts + [["r", ["A"]]])
+        if rng.random() < 0.35:
+            wrapped, style = rng.choice(_GEN_STYLES)
+            prog = ["q", ["c", wrapped, prog, style], ["r", ["P", 1]]]
+        relay = [[j, j - 1, _outcome(rng, 0.3), _act(rng)]]
+        if rng.random() < 0.2 and n > 2:
+            j2 = rng.choice([x for x in range(n) if x != j])
+            relay.append([j2, rng.choice([x for x in range(n) if x != j2]), _outcome(rng, 0.3), _act(rng)])
+        fires = {i: ["f", i, _outcome(rng, 0.3)] for i in range(n)}
+        if rng.random() < 0.75:
+            pre = [fires[i] for i in range(j - 1)]
+            rest = [fires[i] for i in range(j + 1, n)]
+            rng.shuffle(rest)
+            k = rng.randint(0, len(rest))
+            pre += rest[:k]
+            post = [fires[j]] + rest[k:]
+            if rng.random() < 0.2:
+                post.insert(rng.randint(0, len(post)), fires[j - 1])
+        else:
+            pre, post = _schedule(rng, n)
+        specs = [_spec(rng) for _ in range(rng.choice([0, n]))]
+        base = {"kind": "gen", "prog": prog, "specs": specs, "pre": pre, "post": post, "relay": relay}
+        return base, n, not with_w
+    # (b) retry: the same Deferred again
+    c = rng.choice("aaucb")
+    again = rng.choice([["w"], ["w"], ["q", ["m", 1], ["w"]], ["q", ["w"], ["r", ["L", 5]]], ["x", "a", ["w"], ["m", 2]]])
+    shape = rng.random()
+    if shape < 0.4:
+        prog = ["x", c, ["q", ["a"], ["m", 3]], again]
+    elif shape < 0.7:
+        prog = ["l", rng.randint(2, 3), ["x", c, ["q", ["w"], ["r", ["A"]]], ["m", 4]]]          # the classic retry loop
+    elif shape < 0.85:
+        prog = ["q", ["a"], again]
+    else:
+        prog = ["l", 2, ["f", ["x", c, ["a"], again], ["w"]]]
+    prog = ["q", prog, ["q", _guard(rng, ["a"]), ["r", ["A"]]]] if rng.random() < 0.5 else prog
+    if rng.random() < 0.35:
+        wrapped, style = rng.choice(_GEN_STYLES)
+        prog = ["q", ["c", wrapped, prog, style], ["q", rng.choice([["w"], ["k"]]), ["r", ["P", 1]]]]
+    n = rng.choice([1, 2, 3])
+    specs = [_spec(rng) for _ in range(rng.choice([0, n]))]
+    fires = [["f", i, _outcome(rng, 0.6)] for i in range(n)]
+    r = rng.random()
+    if r < 0.6:
+        pre, post = [], fires
+    elif r < 0.75:
+        pre, post = fires, []
+    else:
+        pre, post = [], [["x"]] + fires
+    return {"kind": "gen", "prog": _sanitize(prog), "specs": specs, "pre": pre, "post": post}, n, False
+
+
+def _reentrant_cases(rng):
+    base, n, both = _reentrant(rng)
+    nil_ok = not _has_w(base["prog"])
+    base = _realise(rng, base, n)
+    if not nil_ok:
+        base.pop("nil", None)
+    cases = list(_with_cancels(rng, base, "quick")) if rng.random() < 0.5 else [base]
+    return _both_kinds(cases) if both else iter(cases)
+
+
 def generate(rng, tier):
     n_prog = 260 if tier == "quick" else 9000
     for it in range(n_prog):
+        if it % 2 == 1:
+            yield from _reentrant_cases(rng)
         if it % (40 if tier == "quick" else 90) == 3:
             # the special classes are interleaved with the random programs so that a run that is cut short has them too
             for _ in range(2 if tier == "quick" else 1):
@@ -1197,6 +1456,10 @@ def tag(case, out):
     dk = "".join(sorted(set("".join(case.get("dk") or []))))
     nil = case.get("nil")
     nilseen = nil is not None and ("v%d" % nil) in out          # the value that travels as None occurred in the run
+    if is_reentrant_case(case):
+        import re as _re
+        acts = "".join(sorted(set(r[3][0] for r in case.get("relay") or [])))
+        ks += "|relay:%s|%s" % (acts, "reentrant" if _re.search(r"(^|,)W\d+", out) else "plain")
     return "%s|%s|pre%d|x%d|%s|%s|%s|%s|%s%s%s" % (
         case.get("kind"), ks, min(len(case["pre"]), 3) if len(case["pre"]) < 100 else 100, hit, "end" if "R:" in out else "wait", "A" if "!A" in out else "", ".".join(sorted(fc)), dk,
         "N" if nilseen else "", "O" if case.get("nobs", 1) > 1 else "", "D" if case.get("dbg") else "")
@@ -1247,6 +1510,16 @@ def shrink(case):
         if key in case:
             c = dict(case); del c[key]
             yield c
+    rl = case.get("relay") or []
+    for i in range(len(rl)):
+        c = dict(case); c["relay"] = rl[:i] + rl[i + 1:]
+        if not c["relay"]:
+            del c["relay"]
+        yield c
+    for i, r in enumerate(rl):
+        if r[3] != ["p"]:
+            c = dict(case); c["relay"] = rl[:i] + [[r[0], r[1], r[2], ["p"]]] + rl[i + 1:]
+            yield c
     if _has_rv(case["prog"]):
         c = dict(case); c["prog"] = _strip_rv(case["prog"])
         yield c
@@ -1288,9 +1561,9 @@ def search(rng, tier, disagreeing):
         for order in orders:
             for npre in range(len(order) + 1):
                 pre, post = list(order[:npre]), list(order[npre:])
-                for kind in ("gen", "coro"):
+                for kind in (("gen", "coro") if not is_reentrant_case(case) else (case.get("kind", "gen"),)):
                     base = {"kind": kind, "prog": case["prog"], "specs": case["specs"], "pre": pre, "post": post}
-                    for key in ("dk", "nil", "nobs", "dbg"):
+                    for key in ("dk", "nil", "nobs", "dbg", "relay"):
                         if key in case:
                             base[key] = case[key]
                     yield base
